@@ -1,5 +1,5 @@
 """C16 - S3 time-window lookup is exact."""
-from lib.gallina import gZ, gnat, glist, gopt
+from lib.gallina import gZ, gN, glist, gopt
 
 ID = "C16"
 RUN_MODULE = "RunC16"
@@ -9,11 +9,18 @@ RULE = ("one case = one lookup (start, end or None=now, now, optional metadata f
         "listing) over a bucket holding one recording per grid instant (created = saved = last-modified at that instant, "
         "fake clock; metadata 'g' in {0,1,2} drawn per recording); every window of the grid is looked up without a "
         "filter and (every second one) with a filter, so that recordings matching the filter sit in the edge day "
-        "folders on both sides of the window ends; non-trivial = window non-empty and not covering everything; "
+        "folders on both sides of the window ends; stream `wide`: one recording per day over six and a half months "
+        "(2019-12-28 .. 2020-07-05: a year boundary, months of 29 / 30 / 31 days, +-1 us around the midnights that begin a "
+        "month), windows of 31-121 day folders whose start falls on every day of five months, explicit end and end = now, and "
+        "the same a year later around a February of 28 days (`base_days`: the instants of a case are offsets from the "
+        "driver's BASE + that many days; the model is invariant under whole-day shifts); "
+        "every third case is run a second time with logging enabled (root logger at DEBUG / INFO with a formatting handler): "
+        "the process configuration is not an input of the lookup; non-trivial = window non-empty and not covering everything; "
         "distinct = distinct (times, tags, start, end, now, filter, random)")
 EXHAUSTIVE = {"quick": False, "thorough": True}
 ASSUMPTIONS = ["process clock in UTC (datetime.today() == utcnow(), both replaced by the fake clock)",
-               "strftime('%Y%m%d') injective and monotone on days (exercised across a leap day and a month boundary)",
+               "strftime('%Y%m%d') injective and monotone on days (exercised across a leap day, seven month boundaries and a "
+               "year boundary)",
                "S3 last_modified of an object = instant of its put (fake bucket)"]
 TRUSTED = ["fake bucket behind the real S3BasicFacade; fake clock substituted for s3_tape_cassette.datetime"]
 
@@ -21,11 +28,14 @@ TRUSTED = ["fake bucket behind the real S3BasicFacade; fake clock substituted fo
 NTAGS = 3
 
 
-def _case(times, tags, start, end, now, flt=None, rnd=False, keep=None):
+def _case(times, tags, start, end, now, flt=None, rnd=False, keep=None, base_days=0):
     if keep is not None:
         pairs = [(t, g) for t, g in zip(times, tags) if keep(t)]
         times, tags = [t for t, _ in pairs], [g for _, g in pairs]
-    return dict(times=times, tags=tags, start=start, end=end, now=now, filter=flt, random=rnd)
+    c = dict(times=times, tags=tags, start=start, end=end, now=now, filter=flt, random=rnd)
+    if base_days:
+        c["base_days"] = base_days     # all instants of the case are offsets from the driver's BASE + that many days
+    return c
 
 
 def generate(rng, tier):
@@ -62,8 +72,76 @@ def generate(rng, tier):
             cases.append(_case(times, tags, s, None, max(e, 0), flt=flt, rnd=rnd, keep=lambda t: t <= max(e, 0)))
         else:
             cases.append(_case(times, tags, s, e, nowv, flt=flt, rnd=rnd))
+    # ---- wide windows: several months of day folders, the start on every day of the month ----------------------------
+    # (own generator, after every draw of the streams above: those draw the same cases as before this stream existed)
+    rng_w = __import__("random").Random(rng.getrandbits(64))
+    cases += wide_cases(rng_w, tier)
+    cases.sort(key=lambda c: (len(c["times"]), c["now"]))
+    # ---- the process configuration is not an input of the lookup: every third case again with logging switched on ----
+    # (root logger at DEBUG / INFO and a handler that formats every record, as when somebody investigates a lookup)
+    again = [dict(c, log="INFO" if i % 12 == 10 else "DEBUG") for i, c in enumerate(cases) if i % 3 == 1]
+    cases += again
     cases.sort(key=lambda c: (len(c["times"]), c["now"]))
     return cases
+
+
+DAYUS = 24 * H
+WIDE_LO, WIDE_HI = -61, 129      # days relative to the driver's BASE (2020-02-27): 2019-12-28 .. 2020-07-05
+WIDE_WIDTHS = [30, 31, 32, 40, 59, 62, 93, 120]    # days between start and end: 31 .. 121 day folders
+
+
+BASE_DATE = __import__("datetime").date(2020, 2, 27)     # the driver's BASE (offset 0)
+
+
+def date_of(case, us):
+    return BASE_DATE + __import__("datetime").timedelta(days=case.get("base_days", 0) + us // DAYUS)
+
+
+def wide_times(base_days=0, lo=WIDE_LO, hi=WIDE_HI):
+    """one recording per day over several months, at an hour that moves through the day, plus one microsecond around the
+    midnights that begin a month"""
+    ts = [d * DAYUS + ((7 * d) % 24) * H + ((13 * d) % 60) * 60 * 10**6 for d in range(lo, hi + 1)]
+    for d in range(lo + 1, hi):
+        if date_of(dict(base_days=base_days), d * DAYUS).day == 1:
+            ts += [d * DAYUS - 1, d * DAYUS, d * DAYUS + 1]
+    return sorted(set(ts))
+
+
+def wide_cases(rng, tier):
+    times = wide_times()
+    tags = [rng.randrange(NTAGS) for _ in times]
+    now_all = (WIDE_HI + 1) * DAYUS + H
+    offs = [0, 6 * H + 30 * 60 * 10**6, DAYUS - 1, 12 * H]
+    out = []
+    for k, d in enumerate(range(WIDE_LO + 1, 97)):            # the start falls on every day of five different months
+        s = d * DAYUS + offs[k % len(offs)]
+        if tier == "quick":
+            widths = [WIDE_WIDTHS[k % len(WIDE_WIDTHS)], WIDE_WIDTHS[(3 * k + 1) % len(WIDE_WIDTHS)]]
+        else:
+            widths = WIDE_WIDTHS
+        for j, w in enumerate(widths):
+            e = s + w * DAYUS + [0, -offs[k % len(offs)], 5 * H, -1][(k + j) % 4]
+            flt = (k + j) % NTAGS if (k + j) % 3 == 0 else None
+            out.append(_case(times, tags, s, min(e, now_all), now_all, flt=flt, rnd=(k + j) % 5 == 0))
+        if tier != "quick" or k % 2 == 0:                    # end defaults to now: everything saved so far is behind it
+            out.append(_case(times, tags, s, None, now_all, flt=k % NTAGS if k % 4 == 0 else None))
+        if tier != "quick" or k % 8 == 3:                    # ... also at an earlier `now` (a shorter history)
+            nw = s + 45 * DAYUS + 3 * H
+            out.append(_case(times, tags, s, None, nw, keep=lambda t: t <= nw))
+    # the same a year later (offsets from 2021-02-27): a February of 28 days; starts from 20 Jan to 5 Mar 2021
+    lo, hi = -45, 110
+    times2 = wide_times(366, lo, hi)
+    tags2 = [rng.randrange(NTAGS) for _ in times2]
+    now2 = (hi + 1) * DAYUS + H
+    for k, d in enumerate(range(-38, 7)):
+        s = d * DAYUS + offs[(k + 1) % len(offs)]
+        widths = [31, 59] if tier == "quick" else WIDE_WIDTHS[1:]
+        for j, w in enumerate(widths):
+            out.append(_case(times2, tags2, s, s + w * DAYUS + [5 * H, 0, -1][(k + j) % 3], now2, base_days=366,
+                             flt=(k + j) % NTAGS if (k + j) % 4 == 0 else None))
+        if tier != "quick" or k % 3 == 0:
+            out.append(_case(times2, tags2, s, None, now2, base_days=366))
+    return out
 
 
 def tags_of(case):
@@ -92,11 +170,21 @@ def to_gallina(case, obs):
     flt = case.get("filter")
     return "Case %s %s %s %s %s %s" % (name, gZ(case["start"]), gopt(None if case["end"] is None else gZ(case["end"])),
                                        gZ(case["now"]), gopt(None if flt is None else gZ(flt)),
-                                       glist([gnat(i) for i in listed]))
+                                       glist([gN(i) for i in listed]))
 
 
 def explain(case, obs):
     return "model_obs (%s)" % to_gallina(case, obs)
+
+
+class _Tagged(list):
+    """failure list that appends a remark to every message"""
+    def __init__(self, remark):
+        list.__init__(self)
+        self.remark = remark
+
+    def append(self, f):
+        list.append(self, (f[0], f[1] + self.remark))
 
 
 def direct(case, obs):
@@ -108,6 +196,8 @@ def direct(case, obs):
     want = [i for i in inside if flt is None or tags[i] == flt]
     got = obs["listed"]
     fails = []
+    if case.get("log"):
+        fails = _Tagged(" [lookup made with logging enabled at %s]" % case["log"])
     if len(set(got)) != len(got):
         fails.append(("duplicate", "a recording was listed twice: %s" % got))
     if obs["unknown"] or any(i < 0 for i in got):
@@ -147,6 +237,16 @@ def features(case):
         f.add("end-time-of-day-before-start-time-of-day")
     if case["start"] % H or e % H:
         f.add("off-hour-grid")
+    if case.get("log"):
+        f.add("logging=" + case["log"])
+    if e >= case["start"]:
+        nf = e // DAYUS - case["start"] // DAYUS + 1
+        f.add("day-folders=" + ("1" if nf == 1 else "2-7" if nf <= 7 else "8-31" if nf <= 31 else "32-62" if nf <= 62 else "63+"))
+        if nf > 31:
+            f.add("wide-window-start-day-of-month=%d" % date_of(case, case["start"]).day)
+            if any(date_of(case, d * DAYUS).month == 2 and date_of(case, d * DAYUS).day == 28 and
+                   date_of(case, (d + 1) * DAYUS).month == 3 for d in range(case["start"] // DAYUS, e // DAYUS)):
+                f.add("wide-window-over-a-28-day-february")
     return f
 
 
@@ -164,6 +264,8 @@ def shrink_candidates(case):
         yield dict(case, times=ts[len(ts) // 2:], tags=gs[len(ts) // 2:])
         for i in range(min(len(ts), 12)):
             yield dict(case, times=ts[:i] + ts[i + 1:], tags=gs[:i] + gs[i + 1:])
+    if case.get("log"):
+        yield dict(case, tags=gs, log=None)
     if case.get("random"):
         yield dict(case, tags=gs, random=False)
     if case.get("filter") is not None:
@@ -172,7 +274,7 @@ def shrink_candidates(case):
 
 MANIFEST = dict(
     design_ref='6/C16',
-    text='Coq theorems over all integer instants (window exactness, also next to a metadata filter; day cover, nothing outside, distinct folders; legacy defect refuted with a witness) about a hand-written model of _get_id_prefixes + the facade predicate list (last-modified predicate, content predicate); model tied to /repo on every run by running the real S3TapeCassette (fake bucket, fake clock) and the model on the same window grid + random instants, each window without and (every second one) with a metadata filter, ordered or shuffled; direct predicate on the implementation searches for a failing window.',
+    text='Coq theorems over all integer instants (window exactness, also next to a metadata filter; day cover, nothing outside, distinct folders; legacy defect refuted with a witness) about a hand-written model of _get_id_prefixes + the facade predicate list (last-modified predicate, content predicate); model tied to /repo on every run by running the real S3TapeCassette (fake bucket, fake clock) and the model on the same window grid + random instants (4 days, hour / minute / microsecond level) and on wide windows (31-121 day folders over six and a half months, the start on every day of the month), each window without and (every second one) with a metadata filter, ordered or shuffled, every third case again with logging enabled at DEBUG / INFO; direct predicate on the implementation searches for a failing window.',
     note="Trusted: Coq kernel + vm_compute; hand-written model; correspondence harness (fake bucket behind the real S3BasicFacade, fake clock); strftime day formatting and 'process clock is UTC' are assumptions.",
     technique='Coq proof (lia over Z) + model/implementation correspondence by vm_compute',
 )
